@@ -50,7 +50,7 @@ def worlds(tier):
         w.W("replan-then-skip-with-two-later-arrivals-havoc",
             [w.G("G0", ["T0"], [], release=0, deadline=10 ** 6), w.G("G1", ["T1"], [], release=["sym", 0, 3], deadline=10 ** 6),
              w.G("G2", ["T2"], [], release=["sym", 0, 3], deadline=10 ** 6)], w.C2, "HAVOC", split=8,
-            havoc=dict(hv, retract=True, max_replans=2, max_unplaced=1, max_future=2,
+            havoc=dict(hv, retract=True, max_replans=2, max_unplaced=2, max_future=2,
                        per_task={"T1": {"future": False, "max_unplaced": 0, "max_replans": 0}, "T2": {"future": False, "max_unplaced": 0, "max_replans": 0}}),
             tasks=small(("T0", "T1", "T2")), weight=60),
         w.W("chain2-havoc-retract-skip", w.fixed_times(w.chain(2)), w.C1, "HAVOC", split=8, havoc=dict(hv, retract=True, release_taskgraphs=True, max_replans=1),
